@@ -8,6 +8,10 @@ import (
 // BuildScenario draws the plan of one run for the property under check.
 func BuildScenario(prop, tier string, ch *Chooser, lean bool, s *Sim) (Scenario, string) {
 	switch prop {
+	case "C02", "C07", "C08", "C11", "C12":
+		s.LivelockProp = prop
+	}
+	switch prop {
 	case "C19", "C20":
 		d := DrawDir(prop, tier, ch, lean, s)
 		return d, d.Describe()
